@@ -40,7 +40,7 @@ PROPS = {
     "C08": dict(quick=["book1", "marker", "admit", "mig"], thorough=["book1", "marker", "admit", "mig", "frac", "envchg"], drive=[("conv", 2, 35, 250)]),
     "C09": dict(quick=["fee", "feebig", "feearith", "frac"], thorough=["fee", "feebig", "feearith", "book1", "frac", "mig"],
                 drive=[("fee", 2, 30, 250), ("match", 0, 10, 250)]),
-    "C10": dict(quick=["marker", "envchg"], thorough=["marker", "envchg", "admit"], drive=[("mixed", 2, 25, 250), ("conv", 0, 15, 250)]),
+    "C10": dict(quick=["marker", "envchg"], thorough=["marker", "envchg", "admit"], drive=[("env", 3, 25, 250), ("mixed", 1, 15, 250), ("conv", 0, 15, 250)]),
     "C11": dict(quick=["book2", "book1", "frac", "admit"], thorough=["book2", "book1", "frac", "admit", "fee"],
                 drive=[("mixed", 2, 25, 250), ("match", 0, 15, 250)]),
     "C12": dict(quick=["cfg"], thorough=["cfg"], drive=[("modify", 2, 35, 250)]),
@@ -48,7 +48,7 @@ PROPS = {
                 drive=[("create", 1, 20, 150)]),
     "C14": dict(quick=["mig"], thorough=["mig", "migarb"], drive=[("migrate", 2, 35, 250)]),
     "C15": dict(quick=["mig", "migarb"], thorough=["mig", "migarb"], drive=[("migrate", 2, 35, 250)]),
-    "C16": dict(quick=["book1", "book2", "mig", "inst"], thorough=["book1", "book2", "mig", "inst", "frac"], drive=[("mixed", 2, 25, 250), ("migrate", 0, 10, 250)]),
+    "C16": dict(quick=["book1", "book2", "mig", "inst", "admit"], thorough=["book1", "book2", "mig", "inst", "admit", "frac"], drive=[("mixed", 2, 25, 250), ("migrate", 0, 10, 250)]),
     "C17": dict(quick=["book1", "fee", "marker", "mig", "frac", "admit"],
                 thorough=["book1", "fee", "feearith", "marker", "auth", "mig", "frac"],
                 drive=[("mixed", 2, 25, 250), ("match", 0, 10, 250), ("reverse", 0, 10, 250)]),
